@@ -236,6 +236,10 @@ func ParseFile(b []byte) (*Parsed, error) {
 	p.Codec = "null"
 	if c, ok := p.Meta["avro.codec"]; ok {
 		p.Codec = string(c)
+		// "If codec is absent, it is assumed to be null": a PRESENT entry must name a codec; the empty string names none
+		if p.Codec != "null" && p.Codec != "deflate" && p.Codec != "snappy" {
+			return nil, fmt.Errorf("avro.codec %q names no codec this reader implements (null, deflate, snappy)", p.Codec)
+		}
 	}
 	if _, ok := p.Meta["avro.schema"]; !ok {
 		return nil, fmt.Errorf("no avro.schema in metadata")
